@@ -64,6 +64,9 @@ class Conn(ScriptSock):
         self.connected_to = addr
 
     def shutdown(self, how):
+        # a connection that the peer has reset is no longer connected: shutdown() fails with ENOTCONN (close() is still required to release it)
+        if self.end == 'reset' and not self.chunks and self.recv_calls > 0:
+            raise OSError(107, 'Transport endpoint is not connected')
         self.shut = True
 
     def close(self):
